@@ -656,6 +656,29 @@ def _tiny_coefficients(d):
     return ok and found
 
 
+def job_selftest():
+    """concrete cross-check of the real compiled kernels against the float reference implementations"""
+    cnt = 0
+    cases = [dict(kind=k, sd=sd, state=[2.0, 3.0, 5.0][:sd]) for k in ("linear", "quadratic", "cubic") for sd in (2, 3)]
+    cases += [dict(kind="peaks", sd=sd, idx=i) for sd in (2, 3) for i in range(3)]
+    cases += [dict(kind="ann", sd=sd, cd=cd, layers=list(l)) for (sd, cd, l) in ((2, 1, ()), (3, 2, (2, 2)), (2, 1, (3, 4)), (4, 3, (5, 2, 3)))]
+    cases += [dict(kind="system", name="stuart_landau", sd=2), dict(kind="system", name="lorenz", sd=3)]
+    rnd = random.Random(3)
+    for sd in (2, 3):
+        for idx in range(3):
+            ctrl = get_controller("partially_linear", sd, idx)
+            for _ in range(10):
+                cases.append(dict(kind="partially_linear", sd=sd, idx=idx, state=[float(rnd.randint(-4, 4)) for _ in range(sd)],
+                                  params=[float(rnd.randint(-5, 5)) for _ in range(ctrl.param_dims)]))
+    for w in cases:
+        bad, info = replay(w)
+        cnt += 1
+        if bad:
+            w["observed"] = info
+            return violated("selftest", "dynamic_control/controllers", f"concrete check failed: {w}", w, validated=cnt, paths=cnt)
+    return held(validated=cnt, paths=cnt, queries={}, summary=f"self-test: {cnt} concrete evaluations of the compiled kernels agree with the float references")
+
+
 def ann_archs(tier, chunk, nchunks):
     small = [(sd, cd, tuple(l)) for sd in (2, 3, 4) for cd in (1, 2, 3) for l in ([], [1], [2], [3], [1, 1], [2, 2], [3, 2], [2, 3], [3, 3], [3, 4], [4, 4])]
     extra = [(2, 1, (3, 3, 2)), (3, 1, (5, 5, 5)), (2, 2, (4, 5)), (2, 3, (3, 3, 3)), (3, 2, (2, 2, 2)), (4, 2, (6, 5)), (6, 3, (8, 8, 8)), (6, 1, (8,)), (5, 2, (7, 3, 6))]
@@ -680,7 +703,7 @@ def ann_archs(tier, chunk, nchunks):
 
 
 def jobs(tier):
-    js = []
+    js = [Job("selftest", job_selftest, {}, "selftest", 600)]
     for kind in ("linear", "quadratic", "cubic"):
         for sd in (2, 3):
             js.append(Job(f"polynomial/{kind}/{sd}d", job_polynomial, dict(kind=kind, sd=sd), "complete_polynomial", 600))
